@@ -1,6 +1,7 @@
 """C09 Every accepted assignment becomes exactly one container with exactly one outcome."""
 from harness import execdrv as X
 from harness import execprops as P
+from harness.impl import E_POOL
 
 ID = 'C09'
 MASK = X.M_RESULTS | X.M_LISTS | X.M_STATES
@@ -16,6 +17,15 @@ def monitor(run):
         bad_pool = [c for c in e['cmd']['susp'] if not 0 <= c[1] < r['npools']] + \
                    [a for a in e['cmd']['asg'] if not 0 <= a[4] < r['npools']]
         if e['err']:
+            if e['err'] == E_POOL and e.get('pools_after_err') is not None and e.get('pre_pools') is not None \
+                    and e['pools_after_err'] != e['pre_pools']:
+                # the pool numbers of a batch are validated before anything else happens: a batch refused for an
+                # unknown pool must not have ticked any pool, created any container or swallowed any result
+                pi = next(i for i, (a, b) in enumerate(zip(e['pre_pools'], e['pools_after_err'])) if a != b)
+                a, b = e['pre_pools'][pi], e['pools_after_err'][pi]
+                what = [k for k in a if a[k] != b[k]]
+                yield (f'tick {t}: the batch was refused ({e.get("exc", "")[:40]}) but pool {pi} changed all the same '
+                       f'({", ".join(what[:4])}): containers ran or were created and their results are lost')
             continue
         if bad_pool:
             yield f'tick {t}: a command naming pool {bad_pool[0][-1] if len(bad_pool[0]) > 2 else bad_pool[0][1]} was accepted (silently dropped)'
